@@ -51,9 +51,13 @@ theorem authenticate_spec (s : Srv) (c : Nat) (req : Req) :
   split
   · -- first connection
     rename_i hf
+    unfold handleFirstConnection
+    split
+    · obtain ⟨h1, h2, h3, h4, h5⟩ := recordFailure_frame s (s.ipOf c)
+      exact ⟨h1, fun c' _ => by rw [h2], AOut.err h3 h4 h5 (Or.inl (by rw [h2]))⟩
     refine ⟨⟨rfl, rfl, rfl, rfl, rfl, rfl, rfl, fun _ h => h⟩, ?_, ?_⟩
-    · intro c' hc; simp [handleFirstConnection, setCtl, recordSuccess, upd_other _ _ _ _ hc]
-    · exact AOut.issued rfl rfl rfl hf (by simp [handleFirstConnection, setCtl, recordSuccess, getCtl])
+    · intro c' hc; simp [setCtl, recordSuccess, upd_other _ _ _ _ hc]
+    · exact AOut.issued rfl rfl rfl hf (by simp [setCtl, recordSuccess, getCtl])
   · rename_i hf
     have hf : req.first = false := by simpa using hf
     split
@@ -563,29 +567,51 @@ structure StepSpec (s : Srv) (e : Event) (s' : Srv) (r : RespObs) : Prop where
             (r = .ch s.nextNonce ∨ r = .none))
   rch : ∀ n, r = .ch n → n = s.nextNonce ∧ s'.nextNonce = n + 1 ∧
           ∃ c ty k rr, e = .hs c ty k rr ∧ pend (s'.ctl c) = some n
-  ban : ∀ ip, e ≠ .unban ip → s.banned ip = true → s'.banned ip = true
-  banev : ∀ ip, e = .ban ip → s'.banned ip = true
+  ban : ∀ ip, e ≠ .unban ip → e ≠ .bans ip → s.banned ip = true → s'.banned ip = true
+  banev : ∀ ip, (e = .ban ip ∨ e = .banp ip) → s'.banned ip = true
+  bans : ∀ ip, e = .bans ip → s.perm ip = true → s.banned ip = true → s'.banned ip = true
+  perm : ∀ ip, e ≠ .unban ip → s.perm ip = true → s'.perm ip = true
+  permev : ∀ ip, e = .banp ip → s'.perm ip = true
   acc : s'.accepted = s.accepted ∨
           ∃ c n, e.conn? = some c ∧ pend (s.ctl c) = some n ∧ s'.accepted = n :: s.accepted ∧ pend (s'.ctl c) = none
 
 theorem StepSpec.of_same {s : Srv} {e : Event} {s' : Srv} {r : RespObs}
     (hf : s'.now = s.now ∧ s'.nConns = s.nConns ∧ s'.ipOf = s.ipOf ∧ s'.nIps = s.nIps ∧ s'.env = s.env)
     (hc : s'.ctl = s.ctl) (hr : s'.reg = s.reg) (hn : s'.nClients = s.nClients) (hx : s'.nextNonce = s.nextNonce)
-    (hr' : r = .na ∨ r = .none) (hb : ∀ ip, e ≠ .unban ip → s.banned ip = true → s'.banned ip = true)
-    (hbe : ∀ ip, e = .ban ip → s'.banned ip = true) (hacc : s'.accepted = s.accepted) : StepSpec s e s' r := by
+    (hr' : r = .na ∨ r = .none)
+    (hb : ∀ ip, e ≠ .unban ip → e ≠ .bans ip → s.banned ip = true → s'.banned ip = true)
+    (hbe : ∀ ip, (e = .ban ip ∨ e = .banp ip) → s'.banned ip = true)
+    (hbs : ∀ ip, e = .bans ip → s.perm ip = true → s.banned ip = true → s'.banned ip = true)
+    (hp : ∀ ip, e ≠ .unban ip → s.perm ip = true → s'.perm ip = true)
+    (hpe : ∀ ip, e = .banp ip → s'.perm ip = true)
+    (hacc : s'.accepted = s.accepted) : StepSpec s e s' r := by
   refine ⟨hf, by omega, by omega, fun c' => Or.inl (by rw [hc]), fun y c' h => Or.inl (by rw [hr] at h; exact h), ?_, ?_,
-    fun c' => Or.inl (by rw [hc]), ?_, hb, hbe, Or.inl hacc⟩
+    fun c' => Or.inl (by rw [hc]), ?_, hb, hbe, hbs, hp, hpe, Or.inl hacc⟩
   · intro h; rcases hr' with h' | h' <;> rw [h'] at h <;> cases h
   · intro x h; rcases hr' with h' | h' <;> rw [h'] at h <;> cases h
   · intro n h; rcases hr' with h' | h' <;> rw [h'] at h <;> cases h
 
+/-- events that leave the ban records alone -/
+theorem StepSpec.of_same_nb {s : Srv} {e : Event} {s' : Srv} {r : RespObs}
+    (hf : s'.now = s.now ∧ s'.nConns = s.nConns ∧ s'.ipOf = s.ipOf ∧ s'.nIps = s.nIps ∧ s'.env = s.env)
+    (hc : s'.ctl = s.ctl) (hr : s'.reg = s.reg) (hn : s'.nClients = s.nClients) (hx : s'.nextNonce = s.nextNonce)
+    (hr' : r = .na ∨ r = .none) (hban : s'.banned = s.banned) (hperm : s'.perm = s.perm)
+    (hne : ∀ ip, e ≠ .ban ip ∧ e ≠ .banp ip) (hacc : s'.accepted = s.accepted) : StepSpec s e s' r :=
+  StepSpec.of_same hf hc hr hn hx hr' (fun ip _ _ h => by rw [hban]; exact h)
+    (fun ip h => by rcases h with h | h; exact absurd h (hne ip).1; exact absurd h (hne ip).2)
+    (fun ip _ _ h => by rw [hban]; exact h) (fun ip _ h => by rw [hperm]; exact h)
+    (fun ip h => absurd h (hne ip).2) hacc
+
 theorem StepSpec.of_HSpec {s : Srv} {e : Event} {c : Nat} {req : Req} {s' : Srv} {r : RespObs}
-    (h : HSpec s c req s' r) (hconn : e.conn? = some c) (_hnu : ∀ ip, e ≠ .unban ip) (hnb : ∀ ip, e ≠ .ban ip)
+    (h : HSpec s c req s' r) (hconn : e.conn? = some c) (hperm : ∀ ip, s.perm ip = true → s'.perm ip = true)
+    (hnb : ∀ ip, e ≠ .ban ip ∧ e ≠ .banp ip ∧ e ≠ .bans ip)
     (hJ : ∀ n' x, Jr s c req r n' x → Jm s e r n' c x)
     (hok : r = .ok → ∀ x, req.k = .idx x → ∃ ty rr, e = .hs c ty (.idx x) rr)
     (hnew : ∀ x, r = .new x → req.first = true → ∃ ty, e = .fc c ty)
     (hch : ∀ n, r = .ch n → req.first = false → ∃ ty k rr, e = .hs c ty k rr) : StepSpec s e s' r := by
-  refine ⟨h.frame, h.ncl, h.nonce, ?_, ?_, ?_, ?_, ?_, ?_, fun ip _ hb => h.banmono ip hb, fun ip he => absurd he (hnb ip), ?_⟩
+  refine ⟨h.frame, h.ncl, h.nonce, ?_, ?_, ?_, ?_, ?_, ?_, fun ip _ _ hb => h.banmono ip hb,
+    fun ip he => by rcases he with he | he; exact absurd he (hnb ip).1; exact absurd he (hnb ip).2.1,
+    fun ip he => absurd he (hnb ip).2.2, fun ip _ hp => hperm ip hp, fun ip he => absurd he (hnb ip).2.1, ?_⟩
   rotate_right
   · rcases h.acc with a | ⟨n, a, b, d⟩
     · exact Or.inl a
@@ -635,12 +661,78 @@ theorem resolve_hmac {g : Env} {rr : RespRef} {x : Key} {n : Nat} (h : g.resolve
     simp only [Env.resolve, Resp.hmac.injEq] at h
     exact ⟨nr, by rw [h.1], h.2⟩
 
+/-! permanent-ban flags only ever get set by a handshake -/
+theorem recordFailure_perm (s : Srv) (ip j : Nat) (h : s.perm j = true) : (recordFailure s ip).perm j = true := by
+  unfold recordFailure
+  split
+  · simp only [upd_apply]; split <;> simp_all
+  · split <;> exact h
+
+theorem authenticate_perm (s : Srv) (c : Nat) (req : Req) (j : Nat) (h : s.perm j = true) :
+    (authenticate s c req).1.perm j = true := by
+  unfold authenticate handleFirstConnection
+  split
+  · split
+    · exact recordFailure_perm _ _ _ h
+    · exact h
+  · split
+    · exact recordFailure_perm _ _ _ h
+    · split
+      · exact h
+      · split
+        · unfold handleChallengePhase1; split <;> exact h
+        · unfold handleChallengePhase2
+          split
+          · exact recordFailure_perm _ _ _ h
+          · split
+            · exact recordFailure_perm _ _ _ h
+            · exact h
+
+theorem HandleHandshake_perm (s : Srv) (c : Nat) (req : Req) (j : Nat) (h : s.perm j = true) :
+    (HandleHandshake s c req).1.perm j = true := by
+  unfold HandleHandshake
+  split
+  · exact h
+  · split
+    · exact h
+    · split
+      · split
+        · apply authenticate_perm
+          unfold allowIP; split <;> exact h
+        · exact h
+      · exact authenticate_perm _ _ _ _ h
+
+theorem respond_perm (t : Srv) (c : Nat) (ty : Ty) (res : HRes) : (respond t c ty res).1.perm = t.perm := by
+  unfold respond respondOk
+  split
+  · rfl
+  · split
+    · rfl
+    · split
+      · unfold registryUpdate updateAuth evictOld
+        simp only [dropStaleIndex]
+        split
+        · split
+          · unfold removeConn; split <;> rfl
+          · rfl
+        · rfl
+      · rfl
+
+theorem handleHandshake_perm (s : Srv) (c : Nat) (ty : Ty) (req : Req) (j : Nat) (h : s.perm j = true) :
+    (handleHandshake s c ty req).1.perm j = true := by
+  unfold handleHandshake
+  split
+  · exact h
+  · rw [respond_perm]
+    apply HandleHandshake_perm
+    unfold ensureCtl; split <;> exact h
+
 theorem stepCore_spec (s : Srv) (e : Event) : StepSpec s e (stepCore s e).1 (stepCore s e).2 := by
   have fr : s.now = s.now ∧ s.nConns = s.nConns ∧ s.ipOf = s.ipOf ∧ s.nIps = s.nIps ∧ s.env = s.env :=
     ⟨rfl, rfl, rfl, rfl, rfl⟩
   cases e with
   | fc c ty =>
-    refine StepSpec.of_HSpec (handleHandshake_spec s c ty _) rfl (fun _ => by simp) (fun _ => by simp) ?_ ?_ ?_ ?_
+    refine StepSpec.of_HSpec (handleHandshake_spec s c ty _) rfl (fun ip => handleHandshake_perm s c ty _ ip) (fun _ => by simp) ?_ ?_ ?_ ?_
     · intro n' x hj
       obtain ⟨a, b, d | d⟩ := hj
       · exact ⟨a, b, Or.inl ⟨ty, rfl, d.2⟩⟩
@@ -649,7 +741,7 @@ theorem stepCore_spec (s : Srv) (e : Event) : StepSpec s e (stepCore s e).1 (ste
     · intro x _ _; exact ⟨ty, rfl⟩
     · intro n _ hf; simp at hf
   | hs c ty k rr =>
-    refine StepSpec.of_HSpec (handleHandshake_spec s c ty _) rfl (fun _ => by simp) (fun _ => by simp) ?_ ?_ ?_ ?_
+    refine StepSpec.of_HSpec (handleHandshake_spec s c ty _) rfl (fun ip => handleHandshake_perm s c ty _ ip) (fun _ => by simp) ?_ ?_ ?_ ?_
     · intro n' x hj
       obtain ⟨a, b, d | d⟩ := hj
       · exact absurd d.1 (by simp)
@@ -664,25 +756,64 @@ theorem stepCore_spec (s : Srv) (e : Event) : StepSpec s e (stepCore s e).1 (ste
       exact ⟨ty, rr, rfl⟩
     · intro x _ hf; simp at hf
     · intro n _ _; exact ⟨ty, k, rr, rfl⟩
-  | mal c => exact StepSpec.of_same fr rfl rfl rfl rfl (Or.inr rfl) (fun _ _ h => h) (fun _ h => by cases h) rfl
+  | mal c => exact StepSpec.of_same_nb fr rfl rfl rfl rfl (Or.inr rfl) rfl rfl (fun _ => by simp) rfl
   | ban ip =>
-    refine StepSpec.of_same fr rfl rfl rfl rfl (Or.inl rfl) ?_ ?_ rfl
+    refine StepSpec.of_same fr rfl rfl rfl rfl (Or.inl rfl) ?_ ?_ (fun _ h => by cases h) (fun _ _ h => h)
+      (fun _ h => by cases h) rfl
+    · intro ip' _ _ h; simp only [stepCore, upd_apply]; split <;> simp_all
+    · intro ip' h
+      rcases h with h | h
+      · cases h; simp [stepCore]
+      · cases h
+  | banp ip =>
+    refine StepSpec.of_same fr rfl rfl rfl rfl (Or.inl rfl) ?_ ?_ (fun _ h => by cases h) ?_ ?_ rfl
+    · intro ip' _ _ h; simp only [stepCore, upd_apply]; split <;> simp_all
+    · intro ip' h
+      rcases h with h | h
+      · cases h
+      · cases h; simp [stepCore]
     · intro ip' _ h; simp only [stepCore, upd_apply]; split <;> simp_all
     · intro ip' h; cases h; simp [stepCore]
+  | bans ip =>
+    refine StepSpec.of_same ?_ ?_ ?_ ?_ ?_ (Or.inl rfl) ?_ ?_ ?_ ?_ (fun _ h => by cases h) ?_
+    · simp only [stepCore]; split <;> exact fr
+    · simp only [stepCore]; split <;> rfl
+    · simp only [stepCore]; split <;> rfl
+    · simp only [stepCore]; split <;> rfl
+    · simp only [stepCore]; split <;> rfl
+    · intro ip' _ hne h
+      have : ip' ≠ ip := fun h' => hne (by rw [h'])
+      simp only [stepCore]; split
+      · exact h
+      · simp [upd_other _ _ _ _ this, h]
+    · intro ip' h; rcases h with h | h <;> cases h
+    · intro ip' he hp hb
+      cases he
+      simp only [stepCore, hp, if_true]; exact hb
+    · intro ip' _ h; simp only [stepCore]; split <;> exact h
+    · simp only [stepCore]; split <;> rfl
   | unban ip =>
-    refine StepSpec.of_same fr rfl rfl rfl rfl (Or.inl rfl) ?_ (fun _ h => by cases h) rfl
-    intro ip' hne h
-    have : ip' ≠ ip := fun h' => hne (by rw [h'])
-    simp [stepCore, upd_other _ _ _ _ this, h]
-  | bl ip => exact StepSpec.of_same fr rfl rfl rfl rfl (Or.inl rfl) (fun _ _ h => h) (fun _ h => by cases h) rfl
-  | unbl ip => exact StepSpec.of_same fr rfl rfl rfl rfl (Or.inl rfl) (fun _ _ h => h) (fun _ h => by cases h) rfl
-  | blr g => exact StepSpec.of_same fr rfl rfl rfl rfl (Or.inl rfl) (fun _ _ h => h) (fun _ h => by cases h) rfl
-  | unblr g => exact StepSpec.of_same fr rfl rfl rfl rfl (Or.inl rfl) (fun _ _ h => h) (fun _ h => by cases h) rfl
-  | restart => exact StepSpec.of_same fr rfl rfl rfl rfl (Or.inl rfl) (fun _ _ h => h) (fun _ h => by cases h) rfl
-  | refill ip => exact StepSpec.of_same fr rfl rfl rfl rfl (Or.inl rfl) (fun _ _ h => h) (fun _ h => by cases h) rfl
-  | exp k => exact StepSpec.of_same fr rfl rfl rfl rfl (Or.inl rfl) (fun _ _ h => h) (fun _ h => by cases h) rfl
-  | del k => exact StepSpec.of_same fr rfl rfl rfl rfl (Or.inl rfl) (fun _ _ h => h) (fun _ h => by cases h) rfl
-  | strip k st => exact StepSpec.of_same fr rfl rfl rfl rfl (Or.inl rfl) (fun _ _ h => h) (fun _ h => by cases h) rfl
+    refine StepSpec.of_same fr rfl rfl rfl rfl (Or.inl rfl) ?_ (fun _ h => by rcases h with h | h <;> cases h)
+      (fun _ h => by cases h) ?_ (fun _ h => by cases h) rfl
+    · intro ip' hne _ h
+      have : ip' ≠ ip := fun h' => hne (by rw [h'])
+      simp [stepCore, upd_other _ _ _ _ this, h]
+    · intro ip' hne h
+      have : ip' ≠ ip := fun h' => hne (by rw [h'])
+      simp [stepCore, upd_other _ _ _ _ this, h]
+  | bl ip => exact StepSpec.of_same_nb fr rfl rfl rfl rfl (Or.inl rfl) rfl rfl (fun _ => by simp) rfl
+  | unbl ip => exact StepSpec.of_same_nb fr rfl rfl rfl rfl (Or.inl rfl) rfl rfl (fun _ => by simp) rfl
+  | blr g => exact StepSpec.of_same_nb fr rfl rfl rfl rfl (Or.inl rfl) rfl rfl (fun _ => by simp) rfl
+  | unblr g => exact StepSpec.of_same_nb fr rfl rfl rfl rfl (Or.inl rfl) rfl rfl (fun _ => by simp) rfl
+  | restart => exact StepSpec.of_same_nb fr rfl rfl rfl rfl (Or.inl rfl) rfl rfl (fun _ => by simp) rfl
+  | refill ip => exact StepSpec.of_same_nb fr rfl rfl rfl rfl (Or.inl rfl) rfl rfl (fun _ => by simp) rfl
+  | exp k => exact StepSpec.of_same_nb fr rfl rfl rfl rfl (Or.inl rfl) rfl rfl (fun _ => by simp) rfl
+  | wl ip => exact StepSpec.of_same_nb fr rfl rfl rfl rfl (Or.inl rfl) rfl rfl (fun _ => by simp) rfl
+  | unwl ip => exact StepSpec.of_same_nb fr rfl rfl rfl rfl (Or.inl rfl) rfl rfl (fun _ => by simp) rfl
+  | unexp k => exact StepSpec.of_same_nb fr rfl rfl rfl rfl (Or.inl rfl) rfl rfl (fun _ => by simp) rfl
+  | issue b => exact StepSpec.of_same_nb fr rfl rfl rfl rfl (Or.inl rfl) rfl rfl (fun _ => by simp) rfl
+  | del k => exact StepSpec.of_same_nb fr rfl rfl rfl rfl (Or.inl rfl) rfl rfl (fun _ => by simp) rfl
+  | strip k st => exact StepSpec.of_same_nb fr rfl rfl rfl rfl (Or.inl rfl) rfl rfl (fun _ => by simp) rfl
 
 /-! ### the invariant -/
 
@@ -699,6 +830,8 @@ structure Inv (s : Srv) : Prop where
   i5 : ∀ c c' n, pend (s.ctl c) = some n → pend (s.ctl c') = some n → c = c'
   /-- an explicitly banned address is banned -/
   i6 : ∀ ip, s.env.xban ip = true → s.banned ip = true
+  /-- an explicitly permanently banned address has a permanent record -/
+  i6p : ∀ ip, s.env.xperm ip = true → s.perm ip = true
   /-- accepted nonces were issued -/
   i8 : ∀ n, n ∈ s.env.usedSeen → n < s.nextNonce
   /-- the client index only has entries for clients of the table -/
@@ -737,6 +870,8 @@ theorem track_cases (g : Env) (now nc : Nat) (e : Event) (r : RespObs) :
   | mal c => exact Or.inr (Or.inr ⟨rfl, rfl, rfl⟩)
   | ban ip => exact Or.inr (Or.inr ⟨rfl, rfl, rfl⟩)
   | unban ip => exact Or.inr (Or.inr ⟨rfl, rfl, rfl⟩)
+  | banp ip => exact Or.inr (Or.inr ⟨rfl, rfl, rfl⟩)
+  | bans ip => right; right; simp only [Env.track]; split <;> exact ⟨rfl, rfl, rfl⟩
   | bl ip => exact Or.inr (Or.inr ⟨rfl, rfl, rfl⟩)
   | unbl ip => exact Or.inr (Or.inr ⟨rfl, rfl, rfl⟩)
   | blr g => exact Or.inr (Or.inr ⟨rfl, rfl, rfl⟩)
@@ -744,33 +879,83 @@ theorem track_cases (g : Env) (now nc : Nat) (e : Event) (r : RespObs) :
   | restart => exact Or.inr (Or.inr ⟨rfl, rfl, rfl⟩)
   | refill ip => exact Or.inr (Or.inr ⟨rfl, rfl, rfl⟩)
   | exp k => right; right; simp only [Env.track]; split <;> exact ⟨rfl, rfl, rfl⟩
+  | unexp k => right; right; simp only [Env.track]; split <;> exact ⟨rfl, rfl, rfl⟩
+  | wl ip => exact Or.inr (Or.inr ⟨rfl, rfl, rfl⟩)
+  | unwl ip => exact Or.inr (Or.inr ⟨rfl, rfl, rfl⟩)
+  | issue b => exact Or.inr (Or.inr ⟨rfl, rfl, rfl⟩)
   | del k => right; right; simp only [Env.track]; split <;> exact ⟨rfl, rfl, rfl⟩
   | strip k st => right; right; simp only [Env.track]; split <;> exact ⟨rfl, rfl, rfl⟩
 
+theorem track_hs_bans (g : Env) (now nc : Nat) (c : Nat) (ty : Ty) (k : CRef) (rr : RespRef) (r : RespObs) :
+    (g.track now nc (.hs c ty k rr) r).xban = g.xban ∧ (g.track now nc (.hs c ty k rr) r).xperm = g.xperm := by
+  cases r <;> try exact ⟨rfl, rfl⟩
+  cases rr <;> try exact ⟨rfl, rfl⟩
+  rename_i key nr
+  cases hn : g.resolveN nr <;> simp [Env.track, Env.resolve, hn]
+
 theorem track_xban (g : Env) (now nc : Nat) (e : Event) (r : RespObs) (ip : Nat)
-    (h : (g.track now nc e r).xban ip = true) : e = .ban ip ∨ (g.xban ip = true ∧ e ≠ .unban ip) := by
+    (h : (g.track now nc e r).xban ip = true) :
+    (e = .ban ip ∨ e = .banp ip) ∨ (g.xban ip = true ∧ e ≠ .unban ip ∧ (e = .bans ip → g.xperm ip = true)) := by
   cases e with
-  | hs c ty k rr =>
-    right
-    refine ⟨?_, by simp⟩
-    cases r with
-    | ok =>
-      cases rr with
-      | hmac key nr => cases hn : g.resolveN nr <;> simpa [Env.track, Env.resolve, hn] using h
-      | none => exact h
-      | junk => exact h
-    | ch n => exact h
-    | new x => exact h
-    | fail => exact h
-    | none => exact h
-    | na => exact h
+  | hs c ty k rr => rw [(track_hs_bans g now nc c ty k rr r).1] at h; exact Or.inr ⟨h, by simp, by simp⟩
+  | fc c ty => exact Or.inr ⟨h, by simp, by simp⟩
+  | mal c => exact Or.inr ⟨h, by simp, by simp⟩
+  | ban ip' =>
+    simp only [Env.track, upd_apply] at h
+    split at h
+    · rename_i hh; left; left; rw [hh]
+    · exact Or.inr ⟨h, by simp, by simp⟩
+  | banp ip' =>
+    simp only [Env.track, upd_apply] at h
+    split at h
+    · rename_i hh; left; right; rw [hh]
+    · exact Or.inr ⟨h, by simp, by simp⟩
+  | bans ip' =>
+    simp only [Env.track] at h
+    split at h
+    · rename_i hx
+      refine Or.inr ⟨h, by simp, ?_⟩
+      intro he; cases he; exact hx
+    · simp only [upd_apply] at h
+      split at h
+      · cases h
+      · rename_i hh
+        refine Or.inr ⟨h, by simp, ?_⟩
+        intro he; cases he; exact absurd rfl hh
+  | unban ip' =>
+    simp only [Env.track, upd_apply] at h
+    split at h
+    · cases h
+    · rename_i hh; exact Or.inr ⟨h, by simpa using fun h' => hh h'.symm, by simp⟩
+  | bl ip' => exact Or.inr ⟨h, by simp, by simp⟩
+  | unbl ip' => exact Or.inr ⟨h, by simp, by simp⟩
+  | blr g' => exact Or.inr ⟨h, by simp, by simp⟩
+  | unblr g' => exact Or.inr ⟨h, by simp, by simp⟩
+  | restart => exact Or.inr ⟨h, by simp, by simp⟩
+  | refill ip' => exact Or.inr ⟨h, by simp, by simp⟩
+  | wl ip' => exact Or.inr ⟨h, by simp, by simp⟩
+  | unwl ip' => exact Or.inr ⟨h, by simp, by simp⟩
+  | issue b => exact Or.inr ⟨h, by simp, by simp⟩
+  | exp k => right; refine ⟨?_, by simp, by simp⟩; simp only [Env.track] at h; split at h <;> exact h
+  | unexp k => right; refine ⟨?_, by simp, by simp⟩; simp only [Env.track] at h; split at h <;> exact h
+  | del k => right; refine ⟨?_, by simp, by simp⟩; simp only [Env.track] at h; split at h <;> exact h
+  | strip k st => right; refine ⟨?_, by simp, by simp⟩; simp only [Env.track] at h; split at h <;> exact h
+
+theorem track_xperm (g : Env) (now nc : Nat) (e : Event) (r : RespObs) (ip : Nat)
+    (h : (g.track now nc e r).xperm ip = true) : e = .banp ip ∨ (g.xperm ip = true ∧ e ≠ .unban ip) := by
+  cases e with
+  | hs c ty k rr => rw [(track_hs_bans g now nc c ty k rr r).2] at h; exact Or.inr ⟨h, by simp⟩
   | fc c ty => exact Or.inr ⟨h, by simp⟩
   | mal c => exact Or.inr ⟨h, by simp⟩
-  | ban ip' =>
+  | ban ip' => exact Or.inr ⟨h, by simp⟩
+  | banp ip' =>
     simp only [Env.track, upd_apply] at h
     split at h
     · rename_i hh; left; rw [hh]
     · exact Or.inr ⟨h, by simp⟩
+  | bans ip' =>
+    simp only [Env.track] at h
+    split at h <;> exact Or.inr ⟨h, by simp⟩
   | unban ip' =>
     simp only [Env.track, upd_apply] at h
     split at h
@@ -778,11 +963,15 @@ theorem track_xban (g : Env) (now nc : Nat) (e : Event) (r : RespObs) (ip : Nat)
     · rename_i hh; exact Or.inr ⟨h, by simpa using fun h' => hh h'.symm⟩
   | bl ip' => exact Or.inr ⟨h, by simp⟩
   | unbl ip' => exact Or.inr ⟨h, by simp⟩
-  | blr g => exact Or.inr ⟨h, by simp⟩
-  | unblr g => exact Or.inr ⟨h, by simp⟩
+  | blr g' => exact Or.inr ⟨h, by simp⟩
+  | unblr g' => exact Or.inr ⟨h, by simp⟩
   | restart => exact Or.inr ⟨h, by simp⟩
   | refill ip' => exact Or.inr ⟨h, by simp⟩
+  | wl ip' => exact Or.inr ⟨h, by simp⟩
+  | unwl ip' => exact Or.inr ⟨h, by simp⟩
+  | issue b => exact Or.inr ⟨h, by simp⟩
   | exp k => right; refine ⟨?_, by simp⟩; simp only [Env.track] at h; split at h <;> exact h
+  | unexp k => right; refine ⟨?_, by simp⟩; simp only [Env.track] at h; split at h <;> exact h
   | del k => right; refine ⟨?_, by simp⟩; simp only [Env.track] at h; split at h <;> exact h
   | strip k st => right; refine ⟨?_, by simp⟩; simp only [Env.track] at h; split at h <;> exact h
 
@@ -797,6 +986,7 @@ theorem step_fields (s : Srv) (e : Event) :
 
 theorem Inv.preserved {s : Srv} (I : Inv s) (e : Event) : Inv (Tunnox.C03.step s e).1 := by
   obtain ⟨q1, q2, q3, q4, q5, _, _, _, _, q10, _⟩ := step_fields s e
+  have qp : (Tunnox.C03.step s e).1.perm = (stepCore s e).1.perm := rfl
   have sp := stepCore_spec s e
   generalize (stepCore s e).1 = s' at *
   generalize (stepCore s e).2 = r at *
@@ -829,9 +1019,17 @@ theorem Inv.preserved {s : Srv} (I : Inv s) (e : Event) : Inv (Tunnox.C03.step s
     intro ip h
     rw [q10] at h
     rw [q3]
-    rcases track_xban _ _ _ _ _ _ h with a | ⟨a, b⟩
+    rcases track_xban _ _ _ _ _ _ h with a | ⟨a, b, d⟩
     · exact sp.banev ip a
-    · exact sp.ban ip b (I.i6 ip a)
+    · by_cases hb : e = .bans ip
+      · exact sp.bans ip hb (I.i6p ip (d hb)) (I.i6 ip a)
+      · exact sp.ban ip b hb (I.i6 ip a)
+  have g6p : ∀ ip, s''.env.xperm ip = true → s''.perm ip = true := by
+    intro ip h
+    rw [q10] at h
+    rcases track_xperm _ _ _ _ _ _ h with a | ⟨a, b⟩
+    · rw [qp]; exact sp.permev ip a
+    · rw [qp]; exact sp.perm ip b (I.i6p ip a)
   have g10 : ∀ c x, (pairOf (s''.ctl c)).2 = some x → x < s''.nClients := by
     intro c x h
     rw [q1] at h
@@ -865,7 +1063,7 @@ theorem Inv.preserved {s : Srv} (I : Inv s) (e : Event) : Inv (Tunnox.C03.step s
       intro d; rw [q10, t1]; rfl
     have hv : ∀ d, s''.env.prevCh d = if d = c then s.env.lastCh c else s.env.prevCh d := by
       intro d; rw [q10, t2]; rfl
-    refine ⟨g1, ?_, ?_, ?_, g5, g6, ?_, g9, g10⟩
+    refine ⟨g1, ?_, ?_, ?_, g5, g6, g6p, ?_, g9, g10⟩
     · intro d m h
       rw [q2, hn1]
       rw [hl, hv] at h
@@ -949,7 +1147,7 @@ theorem Inv.preserved {s : Srv} (I : Inv s) (e : Event) : Inv (Tunnox.C03.step s
       rcases hp c1 m h with a | ⟨_, _, _, a4⟩
       · exact a
       · rcases a4 with a4 | a4 <;> rw [hr] at a4 <;> cases a4
-    refine ⟨g1, ?_, ?_, ?_, g5, g6, ?_, g9, g10⟩
+    refine ⟨g1, ?_, ?_, ?_, g5, g6, g6p, ?_, g9, g10⟩
     · intro d m h
       rw [q10, t1, t2] at h
       rw [q2]
@@ -974,7 +1172,7 @@ theorem Inv.preserved {s : Srv} (I : Inv s) (e : Event) : Inv (Tunnox.C03.step s
       · subst hm; have := I.i1 c m hp1; omega
       · have := I.i8 m hm; omega
   · -- the clients learned nothing new
-    refine ⟨g1, ?_, ?_, ?_, g5, g6, ?_, g9, g10⟩
+    refine ⟨g1, ?_, ?_, ?_, g5, g6, g6p, ?_, g9, g10⟩
     · intro d m h
       rw [q10, t1, t2] at h
       rw [q2]
@@ -998,7 +1196,7 @@ theorem Inv.preserved {s : Srv} (I : Inv s) (e : Event) : Inv (Tunnox.C03.step s
       have := I.i8 m hmem; omega
 
 theorem Inv.initial (now : Nat) (ips : List Nat) (nc burst : Nat) (secs : List SecState := []) : Inv (Srv.init now ips nc burst secs) := by
-  refine ⟨?_, ?_, ?_, ?_, ?_, ?_, ?_, ?_, ?_⟩ <;> simp [Srv.init, pend, pairOf]
+  refine ⟨?_, ?_, ?_, ?_, ?_, ?_, ?_, ?_, ?_, ?_⟩ <;> simp [Srv.init, pend, pairOf]
 
 /-! ### the observer's predicate on the model's own observations -/
 
@@ -1367,6 +1565,8 @@ theorem step_sound {s : Srv} (R : RegSound s) (e : Event) : RegSound (Tunnox.C03
     | mal c => exact R
     | ban ip => exact R
     | unban ip => exact R
+    | banp ip => exact R
+    | bans ip => simp only [stepCore]; split <;> exact R
     | bl ip => exact R
     | unbl ip => exact R
     | blr g => exact R
@@ -1374,6 +1574,10 @@ theorem step_sound {s : Srv} (R : RegSound s) (e : Event) : RegSound (Tunnox.C03
     | restart => exact R
     | refill ip => exact R
     | exp k => exact R
+    | wl ip => exact R
+    | unwl ip => exact R
+    | unexp k => exact R
+    | issue b => exact R
     | del k => exact R
     | strip k st => exact R
   exact h
